@@ -740,6 +740,8 @@ class Evaluator:
         self.max_exec = max_exec
         self.evals = 0
         self.capped = False
+        self.errors = {}
+        self.first_error = None
         self.order = {i: list(range(len(c))) if c is not None else None for i, c in side.cands.items()}
 
     # -- one execution ------------------------------------------------------------
@@ -807,12 +809,34 @@ class Evaluator:
                 return None
             except _Cut:
                 return None
+            except (HarnessError, _Unaligned):
+                raise
+            except Exception as e:
+                k = "sampling:" + type(e).__name__
+                self.errors[k] = self.errors.get(k, 0) + 1
+                if self.first_error is None:
+                    self.first_error = f"{k} {e!r} for points {[(j, _vec3(p)) for j, p in got.items()]}, draws {_S.aux_log}"
+                return None
             finally:
                 _S.pir_handler = None
             for obj in scn.objects:
                 if needsSampling(sample[obj]):
                     raise HarnessError("sample still random")
-            rejection = scn.checker.checkRequirements(sample)
+            try:
+                rejection = scn.checker.checkRequirements(sample)
+            except _Unaligned:
+                raise
+            except Exception as e:
+                # Scenic itself fails on this scene (with and without pruning alike): not a
+                # scene of either program; counted, never judged
+                k = type(e).__name__
+                self.errors[k] = self.errors.get(k, 0) + 1
+                if self.first_error is None:
+                    import traceback
+
+                    tb = traceback.extract_tb(e.__traceback__)[-1]
+                    self.first_error = f"{k} at {tb.filename.split('/scenic/')[-1]}:{tb.lineno} for points {[(j, _vec3(p)) for j, p in got.items()]}, draws {_S.aux_log}"
+                return None
         finally:
             _S.pir_handler = None
         if rejection is not None:
@@ -1072,6 +1096,10 @@ def check_program(item):
         res["feasible"] = nfeasible_scenes
         res["evals"] += evU.evals
         res["capped"] = res["capped"] or evU.capped
+        for k, v in evU.errors.items():
+            bump("scene_evaluation_error:" + k, v)
+        if evU.first_error:
+            res["note"] = "Scenic raised while checking a lattice scene: " + evU.first_error
 
         # ---- (4), (5) --------------------------------------------------------------------
         if cp["hang"]:
@@ -1149,6 +1177,8 @@ def check_program(item):
                 search_focus(evP, sideP, fullP, coarseP, i, on_accept_P)
             res["evals"] += evP.evals
             res["capped"] = res["capped"] or evP.capped
+            for k, v in evP.errors.items():
+                bump("scene_evaluation_error:" + k, v)
 
         if nfeasible_scenes == 0:
             bump("no_feasible_scene")
